@@ -5,11 +5,11 @@ import json, subprocess
 CHECKS = {
  "C05": dict(
    technique="runtime monitor of the acceptance => valid circuit implication: every program the real checker accepts is compiled under catch_unwind, validated, shape-checked against sizes computed by the harness' own type model, evaluated and decoded",
-   text="Exploration: generated fully annotated programs (must be accepted: converse clause), the same programs with literal suffixes / let annotations dropped at random (judged only when accepted), several pub fns per program, zero-sized types as parameters / returns / fields.",
-   note="No semantic oracle for suffix-free programs. Generator mask for KF-C05-1 (un-annotated bindings of suffix-free literals) in force and printed in DESIGN.md.",
+   text="Exploration: generated fully annotated programs (must be accepted: converse clause), the same programs with literal suffixes / let annotations dropped at random (judged only when accepted), several pub fns per program, zero-sized types as parameters / returns / fields; plus foreign programs, enumerated: every corpus program, the C07 slot grid and every single-token deletion / duplication / adjacent swap of the corpus programs (about 190 000 texts) - whatever is accepted is judged in worker processes against the shape of its declared types, computed by the harness own size function over the type-checked program.",
+   note="No semantic oracle for suffix-free programs. Generator mask for KF-C05-1 (un-annotated bindings of suffix-free literals) in force and printed in DESIGN.md; for foreign programs KF-C05-1 and KF-C05-3 are keyed on cause (a failure of a program whose type-checked form still holds a number literal of unspecified type / a join call on two empty arrays).",
    design="DESIGN.md section 2 / C05"),
  "C17": dict(
-   technique="fault-injection monitor: rule-breaking edits (31 rules, AST- and token-level) of accepted programs must all be rejected by the real type checker",
+   technique="fault-injection monitor: rule-breaking edits (31 rules, AST- and token-level) of accepted programs and an enumerated family of 455 programs whose disagreement only shows through an un-annotated binding must all be rejected by the real type checker",
    text="Exploration: for every generated, accepted, fully annotated base program each applicable site (3 sampled per rule in the quick tier, all in thorough) of each rule - operand/argument/return/branch/arm/annotation type, non-bool condition, shift amount, index type, unknown identifier/field/variant/type, assignment to immutable bindings (plain, compound, through accessors), use after scope end, wrong argument / field / payload / tuple-pattern counts, refutable let / for patterns, direct and mutual recursion, unused private fn, pub fn without parameters (uncalled and called), declared return type changed to () or another type, cast of / match on unsupported types - plus pairs of different edits. Mutants are printed with every literal suffixed, so inference cannot rescue an operand of another type.",
    note="Each edit is built to violate a documented rule; mutants rejected already by the parser are counted separately.",
    design="DESIGN.md section 2 / C17"),
